@@ -26,7 +26,7 @@ HARNESS = os.environ.get("VERIF_HARNESS_DIR", os.path.join(VERIF, "harness"))
 WORK = os.environ.get("VERIF_WORK_DIR", os.path.join(VERIF, "work"))
 REPLAYS = os.environ.get("VERIF_REPLAYS_DIR", os.path.join(VERIF, "replays"))
 EVIDENCE = os.environ.get("VERIF_EVIDENCE_DIR", os.path.join(VERIF, "evidence"))
-KNOWN = os.path.join(VERIF, "known_findings.jsonl")
+KNOWN = os.path.join(VERIF, "known_findings.txt")
 TARGET = "x86_64-unknown-linux-gnu"
 
 sys.path.insert(0, os.path.join(VERIF, "lib"))
@@ -124,12 +124,23 @@ def run_shards(prefix, env, pid, tier, seed, nshards, scale, layer, outdir, time
 
 
 def load_known():
+    """Lines `open: property=<id> signature=<sig> :: <what>` are open findings; `fixed:` lines suppress nothing."""
     known = []
     if os.path.exists(KNOWN):
         for line in open(KNOWN):
             line = line.strip()
-            if line and not line.startswith("#"):
-                known.append(json.loads(line))
+            if not line.startswith("open:"):
+                continue
+            body = line[len("open:"):].strip()
+            head, _, what = body.partition("::")
+            head = head.strip()
+            if not head.startswith("property="):
+                continue
+            prop, _, rest = head[len("property="):].partition(" ")
+            rest = rest.strip()
+            if not rest.startswith("signature="):
+                continue
+            known.append(dict(status="open", property=prop.strip(), signature=rest[len("signature="):].strip(), what=what.strip()))
     return known
 
 
